@@ -77,6 +77,13 @@ def run(ctx):
         api = sorted(set(e.key for e in ev.vf.events if e.key and e.key.startswith('core::MarkovChain::')))
         ctx.check('C09.chain_api', A, 'chain-api', api == ['core::MarkovChain::current_state', STEP], expected='only step / current_state are invoked on the chain', found=str(api),
                   why='two consecutive runs equal one longer run: run_chain must not reset or otherwise touch the chain', sp=b['sp'])
+    runner_run(ctx, nc, nd)
+    hmc_run(ctx, nc, nd)
+    nuts_chain_run(ctx, nc, nd)
+    nuts_run(ctx, nc, nd)
+
+
+def runner_run(ctx, nc, nd):
     # ------------------------------------------------------------ ChainRunner::run
     A = 'ChainRunner::run'
     b = ctx.anchor(A, name='run', trait='core::ChainRunner', container='trait')
@@ -108,9 +115,6 @@ def run(ctx):
                       expected='results of run_chain(chain_c, n_collect, n_discard) for c = 0..n_chains in chain order, stacked on axis 0; chains stepped in place through chains_mut()',
                       found='in-place=%s per-chain-result-is-buffer=%s ret=%s' % (inplace, res_ok, show(found)), sp=b['sp'],
                       why='row c of the output belongs to the c-th chain; the sampler is left at the last returned state')
-    hmc_run(ctx, nc, nd)
-    nuts_chain_run(ctx, nc, nd)
-    nuts_run(ctx, nc, nd)
 
 
 def hmc_run(ctx, nc, nd):
